@@ -8,6 +8,10 @@ LEVEL = "model_checking"
 
 def nontrivial(chk, st, rid, evs):
     for e in evs:
+        if e["e"] == "Api" and e["outcome"] == "error":
+            chk.nontrivial("api%s-%s" % (st["flavour"], rid))
+            chk.sample({"kind": e["kind"], "arg": e["arg"], "outcome": e["outcome"], "what": e["what"]}, limit=8)
+            break
         if e["e"] in ("ParamsCtor", "ParamCheck", "Setter") and e.get("outcome") != "skip":
             chk.nontrivial("a%s-%s" % (st["flavour"], rid))
             if e["e"] == "ParamCheck":
@@ -19,7 +23,9 @@ def nontrivial(chk, st, rid, evs):
 
 def run(chk):
     # the attempt table is finite and enumerated completely in both tiers; thorough adds the assertion-free build and more instances
-    plan = [dict(flavour="asan-ubsan", exe="record_proto", scen="invalid", runs=(400, 400), opts={})]
+    plan = [dict(flavour="asan-ubsan", exe="record_proto", scen="invalid", runs=(400, 400), opts={}),
+            # random histories of the 14 public mutators with valid and invalid arguments: refused iff invalid, a refused call changes nothing
+            dict(flavour="asan-ubsan", exe="record_proto", scen="api", runs=(300, 8000), opts={})]
     if not chk.quick:
         plan.append(dict(flavour="rel", exe="record_proto", scen="invalid", runs=(400, 400), opts={}))
         plan.append(dict(flavour="dbg", exe="record_proto", scen="invalid", runs=(400, 400), opts={}))
@@ -28,8 +34,9 @@ def run(chk):
                        "ColoquinteParameters and -3..12 for the stage parameter constructors; each of 38 parameter fields outside / at / inside each bound of "
                        "its documented range (check() outcome, and a legalize call with it must be rejected before any callback and leave the circuit "
                        "unchanged); 11 vector setters x lengths n-1, n+1, 0; addNet/setNets with pins -1, n, n+7 and inconsistent lengths; the expected "
-                       "outcome of every attempt is computed by TLC from the contract (PlaceAPI.tla)")
-    chk.cov["exhaustive"] = True
+                       "outcome of every attempt is computed by TLC from the contract (PlaceAPI.tla); plus random histories of the 14 public mutators with valid and invalid "
+                       "arguments (lengths, pins, limits, weights, row heights), judged by the abstract data type of Circuit in PlaceAPI.tla")
+    chk.cov["exhaustive"] = False   # the attempt table is complete, the api histories are sampled
     return chk.finish()
 
 
